@@ -254,6 +254,9 @@ def present(values, how, rng=None):
         labels = [base + j for j in range(n)]
         if rng is not None:
             rng.shuffle(labels)
+    elif how == "dict_enum":
+        # the most common way to name items: dict(enumerate(values)) - keys 0..n-1 in order (key 0 is falsy, keys coincide with positions and often with values)
+        labels = list(range(n))
     elif how == "dict_int_overlap":
         # integer names drawn from the value range, all distinct, unrelated to the item's own value
         top = max(list(values) + [n]) + 1
